@@ -315,11 +315,12 @@ func init() {
 					}
 				}
 			}
-			if top && findExtendsN(cs.P.Tpl(cs.P.Entry).Body) && !direct {
-				reached = false // inside an if / for at the child's top level: never executed
-			} else if top && findExtendsN(cs.P.Tpl(cs.P.Entry).Body) {
+			if top && findExtendsN(cs.P.Tpl(cs.P.Entry).Body) && direct {
+				// directly at the child's top level definitions and control flow
+				// are executed (set, import, if, for, do), output tags are not;
+				// inside an if / for there the marker run decides as usual
 				switch cs.F.What {
-				case "broken-import", "err-in-set":
+				case "broken-import", "err-in-set", "err-in-if", "err-in-for-seq", "noniterable", "oversized-range":
 					reached = true
 				case "unknown-macro":
 					return nil // its import is executed, its print is not
